@@ -59,6 +59,26 @@ Fixpoint wf_ps (ps : list (str * item)) (tail : str) : bool :=
 Definition wf_header (h : str) : Prop :=
   exists ps tail, h = render ps tail /\ wf_ps ps tail = true.
 
+(* the class, decided: cut the header with the scanner, read every match back as an item, and test the conditions
+   (Proofs/C15_request.v: wf_headerb h = true <-> wf_header h).  This is the predicate the oracle uses to decide
+   whether a header it meets is inside the theorems' domain. *)
+Fixpoint split61 (s : str) : str * str :=
+  match s with
+  | [] => ([], [])
+  | c :: r => if c =? 61 then ([], r) else let '(a, b) := split61 r in (c :: a, b)
+  end.
+Definition unval (t : str) : cvalue :=
+  match t with
+  | 34 :: r => match rev r with 34 :: rb => VQ (rev rb) | _ => VU t end
+  | _ => VU t
+  end.
+Definition unentry (e : entry) : str * item :=
+  let '(w1, w2) := split61 (e_sep e) in (e_gap e, mkItem (e_key e) w1 w2 (unval (e_val e))).
+Definition wf_headerb (h : str) : bool :=
+  let '(es, tail) := scan h in
+  let ps := map unentry es in
+  wf_ps ps tail && str_eqb (render ps tail) h.
+
 (* what such a header means: every pair, in order, with its value unquoted *)
 Definition item_pair (i : item) : str * str := (i_key i, unquote (val_text (i_val i))).
 Definition pairs_of (ps : list (str * item)) : list (str * str) := map (fun p => item_pair (snd p)) ps.
